@@ -64,6 +64,10 @@ def _c20():
               "c20_insert_in_seg2_s21", "c20_pop_s0", "c20_pop_s2", "c20_pop_s213", "c20_remove_in_s2", "c20_remove_in_s213",
               "c20_clear_s0", "c20_clear_s213"]:
         add(n)
+    # one concrete split position strictly inside a chunk with chunks behind it (cheap whatever the implementation does)
+    for n in ["c20_split_off_at1_s31", "c20_split_off_at2_s31", "c20_split_off_at1_s213", "c20_split_off_at4_s213", "c20_split_to_at1_s31", "c20_split_to_at2_s31", "c20_split_to_at1_s213"]:
+        hs.append(H(n, tier="quick" if n in ("c20_split_off_at1_s31", "c20_split_to_at1_s31", "c20_split_off_at4_s213") else "thorough", profiles=("rel", "dev"), mem_gb=20, timeout=900,
+                    note="concrete split position inside a chunk, bytes symbolic (20 GB: a realloc of the chunk vector is byte-level for the solver)"))
     # an empty segment is an out-of-range argument in the property's sense
     for n in ["c20_push_empty_s0", "c20_push_empty_s12", "c20_insert_empty_s12", "c20_insert_empty_s0"]:
         hs.append(H(n, tier="quick", profiles=("rel", "dev"), allow_panics=True,
@@ -291,7 +295,7 @@ COMMON_OUTSIDE = ["real thread interleavings inside tokio's channels and the tok
                   "queues longer than 2 frames, more than 3 flows per endpoint (model capacities)"]
 
 PROPS["C02"] = mux_prop(
-    "C02", pick("c02_", extra=["c10_push_est_room", "c10_push_absent"]), thorough_only={"c02_w_vec_0_0", "c02_w_vec_none", "c02_r_rem2_q2_cap3", "c02_w_plain_l3"},
+    "C02", pick("c02_", extra=["c10_push_est_room", "c10_push_absent", "c07_accept"]), thorough_only={"c02_w_vec_0_0", "c02_w_vec_none", "c02_r_rem2_q2_cap3", "c02_w_plain_l3"},
     note="local contract of the decomposition W (write -> exactly one Push with exactly those bytes), S (sender step moves exactly the head of the FIFO), D (Push appended to its own flow's FIFO only), R (reads return the next bytes, frames popped only when used up)",
     bounds=dict(write_len="0,1,3 bytes; vectored: 0..2 slices of 0..2 bytes", read="remainder 0..2 bytes, 0..2 queued frames (1 and 2 bytes), read buffer 1 or 3 bytes", credit="symbolic u32", flows="addressed flow + arbitrary bystander"),
     outside=COMMON_OUTSIDE + ["the end-to-end statement is obtained by composing W, S, C09 (codec), D, R by hand (DESIGN.md 4-C02); the composition argument is not machine-checked"],
